@@ -61,6 +61,7 @@ type storeSrv struct {
 	snaps   map[uint64]*protocol.SignedSnapshot
 	batches [][]*protocol.SignedSnapshot
 	srv     *httptest.Server
+	lateAck time.Duration // the next batch is recorded at once but acknowledged this much later (then reset)
 }
 
 func newStoreSrv() *storeSrv {
@@ -80,7 +81,12 @@ func newStoreSrv() *storeSrv {
 				s.snaps[ss.Snapshot.Version] = ss
 			}
 		}
+		late := s.lateAck
+		s.lateAck = 0
 		s.mu.Unlock()
+		if late > 0 {
+			time.Sleep(late)
+		}
 		w.WriteHeader(200)
 	})
 	mux.HandleFunc("/snapshot", func(w http.ResponseWriter, r *http.Request) {
@@ -414,6 +420,12 @@ func agentsCmd(out *cq.Out, seed uint64, tier string) {
 				b, _ := json.Marshal(&ir)
 				return status, b
 			}},
+			{name: "log: rejects the membership query with a 412 (the event was overwritten and appended later)", class: "audreject", answer: func(path string, status int, body []byte) (int, []byte) {
+				if path != "/proofs/digest-membership" {
+					return status, body
+				}
+				return 412, []byte("actual version is greater than the query version")
+			}},
 			{name: "log: incremental request fails", class: "monerr", answer: func(path string, status int, body []byte) (int, []byte) {
 				if path != "/proofs/incremental" {
 					return status, body
@@ -503,6 +515,8 @@ func agentsCmd(out *cq.Out, seed uint64, tier string) {
 					if obs == "quiet" {
 						out.Violate("C19:auditor-missed-alteration", fmt.Sprintf("the auditor raised no alert although what it checks was altered [%s]", tc.name), desc)
 					}
+				} else if tc.class == "audreject" && obs != "alert" {
+					out.Violate("C19:auditor-missed-alteration:query-rejected", fmt.Sprintf("the log refuses to prove the membership of a gossiped snapshot (HTTP 412) and the auditor raised no alert (outcome %q) [%s]", obs, tc.name), desc)
 				}
 			}
 			out.Case(fmt.Sprintf("aud:%d:%d", lg, c), tc.class != "honest")
@@ -531,7 +545,7 @@ func agentsCmd(out *cq.Out, seed uint64, tier string) {
 					out.Violate("C19:monitor-alert-mismatch", fmt.Sprintf("monitor: the incremental proof between the batch's first and last snapshot answered=%v verifies=%v, the monitor's outcome is %q (expected %q) [%s]", mAns, mVer, obs, want, tc.name), desc)
 				}
 				mcases = append(mcases, fmt.Sprintf("((%v, %v), %s)", mAns, mVer, verd[obs]))
-				if tc.class == "honest" || tc.class == "unused" || tc.class == "aud" || tc.class == "nostore" {
+				if tc.class == "honest" || tc.class == "unused" || tc.class == "aud" || tc.class == "nostore" || tc.class == "audreject" {
 					if obs == "alert" {
 						out.Violate("C19:monitor-false-alert", fmt.Sprintf("the monitor raised an alert on data it should accept [%s]: %.200s", tc.name, alerts[0]), desc)
 					}
@@ -619,6 +633,48 @@ func agentsCmd(out *cq.Out, seed uint64, tier string) {
 			out.Violate("C19:publisher-drops-unseen", fmt.Sprintf("%d signed snapshots the publisher had not seen before never reached the snapshot store", missing), desc)
 		}
 		pubcases = append(pubcases, fmt.Sprintf("(%s, %s)", cq.List(pcase), cq.List(obsB)))
+		// ---- publisher: the snapshot store records a batch but acknowledges it late (after the client's deadline): the
+		// publisher's call fails, yet nothing may reach the store a second time
+		{
+			var fresh []*protocol.SignedSnapshot
+			for v := 0; v < total && len(fresh) < 4; v++ {
+				if !delivered[string(signed[v].Signature)] {
+					fresh = append(fresh, cloneSigned(signed[v]))
+				}
+			}
+			for len(fresh) < 3 {
+				c := cloneSigned(signed[len(fresh)])
+				c.Signature = append(append([]byte{}, c.Signature...), byte(lg), byte(len(fresh)), 0x5a)
+				fresh = append(fresh, c)
+			}
+			rig.store.mu.Lock()
+			rig.store.batches = nil
+			rig.store.lateAck = 2400 * time.Millisecond
+			rig.store.mu.Unlock()
+			if _, p, msg := runTask(pub, rig.agent, &protocol.BatchSnapshots{Snapshots: fresh}); p {
+				out.Violate("C19:agent-task-panic", "the publisher task failed internally: "+msg, desc)
+			}
+			time.Sleep(700 * time.Millisecond)
+			rig.store.mu.Lock()
+			cnt := map[string]int{}
+			for _, b := range rig.store.batches {
+				for _, ss := range b {
+					cnt[string(ss.Signature)]++
+				}
+			}
+			rig.store.lateAck = 0
+			rig.store.mu.Unlock()
+			twice := 0
+			for _, c := range cnt {
+				if c > 1 {
+					twice++
+				}
+			}
+			out.Count("publisher_late_ack_runs", 1)
+			if twice > 0 {
+				out.Violate("C19:publisher-forwards-twice:late-acknowledgement", fmt.Sprintf("the snapshot store recorded a batch of %d new signed snapshots and acknowledged it 2.4 s later (after the client's read deadline): %d of them reached the store more than once", len(fresh), twice), map[string]interface{}{"seed": seed, "log": lg, "scenario": "store acknowledges late"})
+			}
+		}
 		out.Count("publisher_batches_delivered", nb)
 		out.Count("publisher_batches_forwarded", len(got))
 
